@@ -603,7 +603,17 @@ func c05CLI(c *fw.Ctx) {
 			ioutil.WriteFile(filepath.Join(dir, "src/a.wsp"), []byte("garbage garbage garbage garbage garbage"), 0644)
 		}},
 	}
+	// sum-copy failing on the full text-out device
+	mk("srcsum/it/a.wsp", l, 1000)
+	mk("srcsum/it/b.wsp", l, 2000)
+	mk("dest/it/sum.wsp", l, 5000)
+	scen = append(scen, sc{"sum-copy-text-out-dev-full", []string{"sum-copy", "-src-base", filepath.Join(dir, "srcsum"), "-item", "it", "-src", "*.wsp", "-dest-base", filepath.Join(dir, "dest"), "-dest", "sum.wsp",
+		"-agg-method", "sum", "-x-files-factor", "0", "-retentions", l.RetentionString(), "-text-out", "/dev/full"}, nil})
 	s := scen[r.Intn(len(scen))]
+	if s.name == "sum-copy-text-out-dev-full" {
+		destPath = filepath.Join(dir, "dest/it/sum.wsp")
+		before, _ = ioutil.ReadFile(destPath)
+	}
 	if c.Index%24 == 7 {
 		s = scen[0]
 	}
